@@ -29,7 +29,7 @@ func TestProp(t *testing.T) {
 	c := pkit.Load(prop)
 	c.Check(t, func(rt *rapid.T) {
 		s := e2.DrawStructural(rt, e2.StructOpt{
-			Env:    progen.EnvOpt{Avoid: c.ActiveSet()},
+			Env:    progen.EnvOpt{PtrKeys: true, Avoid: c.ActiveSet()},
 			NTypes: 14, EnumChunks: true, Carriers: true, TopShapes: true,
 			Roles: []string{"clone", "deepcopy"},
 			// the deepcopy generator has one branch per (container, element copyable by assignment or not):
@@ -49,6 +49,21 @@ func TestProp(t *testing.T) {
 				// Clone of a value that is not itself a reference: an array of references, and a struct whose
 				// only references sit inside arrays
 				out = append(out, arr, progen.ArrayOf(2, arr))
+				// keys that hold pointers are copied as well: behind a field, an element, a pointer and a map value
+				pk := progen.PtrTo(progen.B("int"))
+				var pks []*progen.Type
+				pks = append(pks, pk, progen.ArrayOf(1, pk))
+				if len(env.PtrKeyStructs) > 0 {
+					pks = append(pks, progen.NamedT(env.PtrKeyStructs[0]))
+				}
+				k := pks[rapid.IntRange(0, len(pks)-1).Draw(rt, "c05-ptrkey")]
+				vals := []*progen.Type{progen.B("int"), progen.B("string"), progen.ArrayOf(2, progen.B("int")), progen.PtrTo(progen.B("int"))}
+				if len(env.KeyStructs) > 0 {
+					vals = append(vals, progen.NamedT(env.KeyStructs[0]))
+				}
+				km := progen.MapOf(k, vals[rapid.IntRange(0, len(vals)-1).Draw(rt, "c05-ptrkeyval")])
+				out = append(out, km, progen.PtrTo(km), progen.SliceOf(km), progen.MapOf(progen.B("string"), km), progen.ArrayOf(2, km))
+				out = append(out, e2.Carrier(env, "WK", km, progen.B("int")))
 				out = append(out, e2.Carrier(env, "WV", arr, progen.B("int"), progen.ArrayOf(2, progen.B("string"))).Elem)
 				return out
 			},
